@@ -78,6 +78,17 @@ def strip_raw(l):
 
 def run(tier, seed, replay=None):
     rng = vlib.Rng(seed)
+    # no two live entities carry the same handle, also when several threads create at the same time under one lock (real
+    # concurrency, not a call-granularity interleaving): the stress of C05 judged for this property
+    if not replay or any(l.startswith('pcreate') for l in open(replay)):
+        from checks import c05
+        rl = [l.rstrip('\n') for l in open(replay) if l.strip() and not l.startswith('#')] if replay else None
+        bad, pc_cov = c05.concurrent_creation(tier, [('replay', rl)] if rl else None, work='C01-pc')
+        if bad or replay:
+            if not bad:
+                return {'violations': [], 'coverage': dict(pc_cov, rule='replay of a concurrent-creation script', evaluations=1, distinct_nontrivial=1), 'level': 'proof'}
+            p = vlib.write_replay(PROP, 'failing_script.txt', '# %s\n# script %s (a race: repeat the run if it passes once)\n%s\n' % (bad[1], bad[0], '\n'.join(bad[2])))
+            return {'violations': [(p, '')], 'coverage': {'rule': 'concurrent creation stress failed before the script comparison ran', 'evaluations': 4, 'distinct_nontrivial': 4}, 'level': 'proof'}
     pr = proofcheck.prove(PROP)
     nscripts, maxops, maxthr = (250, 50, 4) if tier == "quick" else (2500, 200, 15)
     if replay:
